@@ -164,6 +164,65 @@ fn interpreter_route(lines: &[String]) -> Vec<(String, String, String)> {
     out
 }
 
+/// Analyzer route: the per-line token lists the source-file analyzer hands to front ends. One
+/// list per file line, and for a line that tokenizes exactly the tokenizer's ranges (behind
+/// the line-number token, if the line has one).
+fn analyzer_route(thorough: bool) -> (u64, Vec<(String, String, String)>) {
+    use abasic_core::verif::{parse_line_number, tokenize_skipping};
+    let set = [
+        "10 PRINT 1", "", " ", "\r", "\t ", "20 X=\"\u{e9}\"", "30 REM x ", "PRINT", "10", "40 %", " 50 A$ = 1", "60 DATA a, b\r", "70 \"", "80 ?1;2", "\u{c}", "10 \u{a0}",
+    ];
+    let n = if thorough { 4 } else { 3 };
+    let base = set.len() as u64;
+    let mut files = 0u64;
+    let mut out = vec![];
+    for len in 1..=n {
+        let count = pow(base, len);
+        files += count;
+        let res: Vec<(String, String, String)> = (0..count)
+            .into_par_iter()
+            .filter_map(|i| {
+                let lines: Vec<&str> = decode_seq(i, base, len).iter().map(|k| set[*k]).collect();
+                let text = lines.join("\n");
+                let t2 = text.clone();
+                let a = match guarded(move || {
+                    let a = abasic_core::SourceFileAnalyzer::analyze(t2);
+                    a.token_types().iter().map(|l| l.iter().map(|(_, r)| r.clone()).collect::<Vec<_>>()).collect::<Vec<_>>()
+                }) {
+                    Ok(a) => a,
+                    Err(p) => return Some((format!("analyzer panic {}", short_panic(&p)), p, text)),
+                };
+                if a.len() != lines.len() {
+                    return Some(("not one token list per file line".into(), format!("{} lists for {} lines of {:?}", a.len(), lines.len(), text), text));
+                }
+                for (k, line) in lines.iter().enumerate() {
+                    let (skip, first) = match parse_line_number(line) {
+                        Some((_, e)) => (e, line.find(|c: char| c.is_ascii_digit())),
+                        None => (0, None),
+                    };
+                    if skip == 0 {
+                        continue; // a line without a number is only warned about
+                    }
+                    if let Ok(toks) = tokenize_skipping(line, skip) {
+                        let h: Vec<std::ops::Range<usize>> = toks.iter().map(|t| t.1.clone()).collect();
+                        let same = a[k] == h || (skip > 0 && !a[k].is_empty() && a[k][0].end == skip && a[k][0].start <= first.unwrap_or(0) && a[k][1..] == h[..]);
+                        if !same {
+                            return Some((
+                                "token list of a file line differs from the tokenizer's".into(),
+                                format!("file {:?}, line {} {:?}: analyzer ranges {:?}, tokenizer ranges {:?} (line number ends at {})", text, k, line, a[k], h, skip),
+                                text,
+                            ));
+                        }
+                    }
+                }
+                None
+            })
+            .collect();
+        out.extend(res);
+    }
+    (files, out)
+}
+
 pub fn run(thorough: bool) -> Report {
     let mut rep = Report::new("C13", "exploration");
     let at = atoms();
@@ -220,6 +279,15 @@ pub fn run(thorough: bool) -> Report {
             }
         }
     }
+    let (afiles, ares) = analyzer_route(thorough);
+    for (s, d, l) in ares {
+        let e = by_sig.entry(s).or_insert((0, l.clone(), d.clone()));
+        e.0 += 1;
+        if l.len() < e.1.len() {
+            e.1 = l;
+            e.2 = d;
+        }
+    }
     if kinds.len() < 3 {
         machinery("vacuous: too few outcome classes");
     }
@@ -238,6 +306,7 @@ pub fn run(thorough: bool) -> Report {
         "exhaustive": true,
         "atoms": at,
         "max_atoms": n,
+        "files_through_the_analyzer_route": afiles,
         "lines_also_entered_at_the_prompt_after_a_failed_command": routed,
         "outcome_classes": kinds,
         "samples": ["GO TOX12", "PRINT\"s t\"<=.5", "A$é", "DATA d , e :REM r "],
